@@ -1,7 +1,6 @@
 package main
 
 import (
-	"regexp"
 	"bytes"
 	"context"
 	"crypto/sha256"
@@ -11,6 +10,8 @@ import (
 	"os"
 	"os/exec"
 	"path/filepath"
+	"regexp"
+	"strconv"
 	"strings"
 	"sync"
 	"time"
@@ -146,7 +147,9 @@ type solverRun struct {
 
 var solvers = []solverRun{
 	{"z3-new", func(f string, s int) []string { return []string{"z3-new", fmt.Sprintf("-T:%d", s), f} }},
-	{"cvc5", func(f string, s int) []string { return []string{"cvc5", "--incremental", fmt.Sprintf("--tlimit=%d", s*1000), f} }},
+	{"cvc5", func(f string, s int) []string {
+		return []string{"cvc5", "--incremental", fmt.Sprintf("--tlimit=%d", s*1000), f}
+	}},
 	{"z3", func(f string, s int) []string { return []string{"z3", fmt.Sprintf("-T:%d", s), f} }},
 }
 
@@ -232,8 +235,14 @@ func (u *Unit) discharge(o *Obligation, cfg *solverCfg, seq int) {
 	var outs []string
 	quickDone := false
 	if o.Expect == "unsat" && !cfg.agree {
-		// attempt 0: the full query, first solver, short budget (most obligations end here)
-		res, out, el := runSolver(solvers[0], file, time.Duration(3*cfg.sc())*time.Second)
+		// attempt 0: the full query, first solver, short budget (most obligations end here). Where the reduced
+		// variants of attempt 1 apply, the first try is kept very short and the full budget comes after them
+		// (attempt 1b): on long paths the reduced queries are decided in a fraction of the time of the full one
+		b0 := 3 * cfg.sc() * u.contractScale()
+		if len(o.PC) > 12 && !o.Short {
+			b0 = cfg.sc()
+		}
+		res, out, el := runSolver(solvers[0], file, time.Duration(b0)*time.Second)
 		if res == "unsat" || res == "sat" {
 			o.Result, o.Backend, o.TimeS, o.Output = res, solvers[0].name, el, fmt.Sprintf("[%s] %s", solvers[0].name, strings.TrimSpace(firstLines(out, 3)))
 			quickDone = true
@@ -264,7 +273,7 @@ func (u *Unit) discharge(o *Obligation, cfg *solverCfg, seq int) {
 		if dropped {
 			rfile := filepath.Join(cfg.workDir, fmt.Sprintf("q%06d.norec.smt2", seq))
 			os.WriteFile(rfile, []byte(u.smtTextPC(o, o.PC, rax)), 0o644)
-			res, _, el := runSolver(solvers[0], rfile, time.Duration(3*cfg.sc())*time.Second)
+			res, _, el := runSolver(solvers[0], rfile, time.Duration(3*cfg.sc()*u.contractScale())*time.Second)
 			os.Remove(rfile)
 			if res == "unsat" {
 				o.Result, o.Backend, o.TimeS = "unsat", solvers[0].name+"(norec)", el
@@ -305,7 +314,7 @@ func (u *Unit) discharge(o *Obligation, cfg *solverCfg, seq int) {
 			}
 			rfile := filepath.Join(cfg.workDir, fmt.Sprintf("q%06d.r%d.smt2", seq, rounds))
 			os.WriteFile(rfile, []byte(u.smtTextPC(o, rpc, rax)), 0o644)
-			res, _, el := runSolver(solvers[0], rfile, time.Duration(2*cfg.sc())*time.Second)
+			res, _, el := runSolver(solvers[0], rfile, time.Duration(2*cfg.sc()*u.contractScale())*time.Second)
 			os.Remove(rfile)
 			if res == "unsat" {
 				o.Result, o.Backend, o.TimeS = "unsat", solvers[0].name+"(relevant)", el
@@ -316,6 +325,14 @@ func (u *Unit) discharge(o *Obligation, cfg *solverCfg, seq int) {
 				}
 				return
 			}
+		}
+	}
+	if !quickDone && o.Expect == "unsat" && !cfg.agree && len(o.PC) > 12 {
+		// attempt 1b: the full query at the full short budget
+		res, out, el := runSolver(solvers[0], file, time.Duration(3*cfg.sc()*u.contractScale())*time.Second)
+		if res == "unsat" || res == "sat" {
+			o.Result, o.Backend, o.TimeS, o.Output = res, solvers[0].name, el, fmt.Sprintf("[%s] %s", solvers[0].name, strings.TrimSpace(firstLines(out, 3)))
+			quickDone = true
 		}
 	}
 	final := "unknown"
@@ -385,6 +402,19 @@ func (u *Unit) discharge(o *Obligation, cfg *solverCfg, seq int) {
 		data, _ := json.Marshal(cacheEntry{final, backend, total, o.Output})
 		os.WriteFile(cpath, data, 0o644)
 	}
+}
+
+// contractScale: `flag solver_scale N` on a function's contract multiplies the budgets of the short attempts for its
+// obligations (functions verified path by path whose hardest paths sit close to the default budget).
+func (u *Unit) contractScale() int {
+	if r := u.root(); r.contract != nil {
+		if v := r.contract.Flags["solver_scale"]; v != "" {
+			if n, err := strconv.Atoi(strings.TrimSpace(v)); err == nil && n >= 1 && n <= 10 {
+				return n
+			}
+		}
+	}
+	return 1
 }
 
 func (c *solverCfg) sc() int {
